@@ -197,6 +197,8 @@ func ManageDeployment(client runtimeclient.Client, daemonset *datadoghqv1alpha1.
 			runtimeclient.MatchingLabels{
 				datadoghqv1alpha1.ExtendedDaemonSetReplicaSetCanaryLabelKey: datadoghqv1alpha1.ExtendedDaemonSetReplicaSetCanaryLabelValue,
 				datadoghqv1alpha1.ExtendedDaemonSetReplicaSetNameLabelKey:   params.Replicaset.GetName(),
+				// only pods that still carry the ExtendedDaemonSet's name label are its pods
+				datadoghqv1alpha1.ExtendedDaemonSetNameLabelKey: daemonset.GetName(),
 			},
 		}
 		if err = client.List(context.TODO(), canaryPods, listOptions...); err != nil {
